@@ -502,7 +502,7 @@ pub fn run(tier: Tier, seed: u64) -> i32 {
             layouts.push(mk(&idx, &mut r));
         }
     }
-    let n_states = tier.pick(60, 40);
+    let n_states = tier.pick(60, 100);
     let se_jobs: Vec<(bool, f64, Option<Vec<(f64, f64)>>)> = {
         let mut v = vec![];
         for se3 in [false, true] {
